@@ -58,7 +58,10 @@ def show(kind, p):
 
 
 def keyval(k):
-    return ''.join(chr(c) for c in k) if isinstance(k, list) else k
+    """spec keys / lookup values: texts as code lists; numbers in HALF units (20 -> 10, 51 -> 25.5)"""
+    if isinstance(k, list):
+        return ''.join(chr(c) for c in k)
+    return k // 2 if k % 2 == 0 else k / 2
 
 
 def conforms(exp, got):
@@ -80,19 +83,24 @@ def _lookup_job(recs):
             keys = [keyval(k) for k in rec['keys']]
             p = probe(len(keys))
             bad, n = [], 0
-            for v, row in zip(rec['vals'], rec['rows']):
-                v = keyval(v)
-                ov = [(0, 0, i, k) for i, k in enumerate(keys)] + [(0, 4, 0, v)]
-                res = p.eval(ov)
-                for j, (w, r) in enumerate(zip(WANT, res)):
-                    exp = row[w]
-                    if j >= 12 and exp == NA:
-                        exp = ERR        # INDEX(.., MATCH miss): some error outcome (the statement defines the partner of present keys)
-                    if exp == OOS:
-                        continue
-                    n += 1
-                    if not conforms(exp, code(*r)):
-                        bad.append((p.formulas[j], keys, v, exp, show(*r)))
+            for v0, row in zip(rec['vals'], rec['rows']):
+                v0 = keyval(v0)
+                # an integral lookup value is also supplied as a float (20.0 equals the key 20); keys also as floats
+                variants = [(keys, v0)]
+                if isinstance(v0, int):
+                    variants += [(keys, float(v0)), ([float(k) for k in keys], v0)]
+                for ks, v in variants:
+                    ov = [(0, 0, i, k) for i, k in enumerate(ks)] + [(0, 4, 0, v)]
+                    res = p.eval(ov)
+                    for j, (w, r) in enumerate(zip(WANT, res)):
+                        exp = row[w]
+                        if j >= 12 and exp == NA:
+                            exp = ERR        # INDEX(.., MATCH miss): some error outcome (the statement defines the partner of present keys)
+                        if exp == OOS:
+                            continue
+                        n += 1
+                        if not conforms(exp, code(*r)):
+                            bad.append((p.formulas[j], ks, v, exp, show(*r)))
             out.append((n, bad))
         return out
     except Exception as e:
@@ -104,8 +112,8 @@ def gen_lookup(run):
     recs = []
     L = 4 if run.quick else 5
     for kind in ('LOOKUP', 'TEXT'):
-        r = run.tlc('Gen_C14', ['INIT Init', 'NEXT Next', f'CONSTANT Kind = "{kind}"', 'CONSTANT Keys = {10, 20, 30, 40}', f'CONSTANT L = {L}',
-                                'CONSTANT Vals = {5, 10, 15, 20, 25, 30, 35, 40, 45}'], workers=4, timeout=1800, tag='Gen_C14_' + kind)
+        r = run.tlc('Gen_C14', ['INIT Init', 'NEXT Next', f'CONSTANT Kind = "{kind}"', 'CONSTANT Keys = {20, 40, 60, 80}', f'CONSTANT L = {L}',
+                                'CONSTANT Vals = {10, 20, 30, 40, 50, 51, 60, 70, 79, 80, 90}'], workers=4, timeout=1800, tag='Gen_C14_' + kind)
         recs += r.records
         run.exhaustive[f'{kind}: key columns x lookup values'] = True
     res = core.pmap(_lookup_job, core.chunks(recs, 20), chunksize=1)
@@ -244,8 +252,11 @@ def _trace_job(seeds):
             if rng.random() < 0.6:
                 keys.sort()
             v = rng.choice(keys) if rng.random() < 0.5 else rng.randint(-3, 65)
+            obs_v = v
+            if rng.random() < 0.3:
+                obs_v = float(v)
             p = probe(n)
-            res = p.eval([(0, 0, i, k) for i, k in enumerate(keys)] + [(0, 4, 0, v)])
+            res = p.eval([(0, 0, i, k) for i, k in enumerate(keys)] + [(0, 4, 0, obs_v)])
             for j, f in ((0, 'VEXACT'), (3, 'VAPPROX'), (4, 'VAPPROX'), (6, 'EXACT'), (7, 'APPROX'), (8, 'APPROX'), (9, 'EXACT'), (11, 'LAST'), (12, 'PARTNER')):
                 out.append({'f': f, 'keys': keys, 'v': v, 'o': code(*res[j]), 'raw': show(*res[j]), 'formula': p.formulas[j]})
         return out
@@ -325,7 +336,7 @@ def check(run):
                         'VLOOKUP result column beyond the table: out of scope', 'INDEX with a negative index: any error value accepted']
     inv = ['ExactIsFirst', 'ExactLastIsLast', 'ApproxIsMaxLE', 'ApproxAboveAll', 'ApproxExtendsExact', 'IndexMatchPartner', 'ColBijective', 'AddressAnchors']
     L = 4 if run.quick else 5
-    run.tlc('MC_XlLookup', ['INIT Init', 'NEXT Next', 'CONSTANT Keys = {10, 20, 30, 40}', f'CONSTANT L = {L}', 'CONSTANT Vals = {5, 10, 15, 20, 25, 30, 35, 40, 45}']
+    run.tlc('MC_XlLookup', ['INIT Init', 'NEXT Next', 'CONSTANT Keys = {20, 40, 60, 80}', f'CONSTANT L = {L}', 'CONSTANT Vals = {10, 20, 30, 40, 50, 51, 60, 70, 79, 80, 90}']
             + ['INVARIANT ' + i for i in inv], workers=8, timeout=1800)
     run.tlc('MC_XlLookup', ['INIT Init', 'NEXT Next', 'CONSTANT Keys = {10}', 'CONSTANT L = 1', 'CONSTANT Vals = {5}', 'INVARIANT ColBijectiveAll'],
             workers=2, timeout=1800, tag='MC_XlLookup_cols')
